@@ -598,25 +598,23 @@ Lemma fixed_unscaled scale ds exp : 0 <= exp + scale ->
   digits_val (if exp + scale >? 0 then ds ++ repeat 0 (Z.to_nat (exp + scale)) else ds) = unscaled scale ds exp.
 Proof. intros H. rewrite digits_val_pad. unfold unscaled. f_equal. f_equal. lia. Qed.
 
-Lemma prepare_fixed_unfold repaired precision scale size sign ds exp :
+Lemma prepare_fixed_unfold precision scale size sign ds exp :
   len ds <= precision -> 0 <= exp + scale ->
-  prepare_fixed_decimal_gen repaired precision scale size sign ds exp =
+  prepare_fixed_decimal precision scale size sign ds exp =
   let u := unscaled scale ds exp in
-  if repaired then
-    if bit_length u + 1 >? size * 8 then Err else Ok (fixed_core size (sign && negb (u =? 0)) u)
-  else Ok (fixed_core size sign u).
+  if bit_length u + 1 >? size * 8 then Err else Ok (fixed_core size (sign && negb (u =? 0)) u).
 Proof.
-  intros Hp Hs. unfold prepare_fixed_decimal_gen.
+  intros Hp Hs. unfold prepare_fixed_decimal.
   destruct (len ds >? precision) eqn:E1; [lia|].
   destruct (- exp >? scale) eqn:E2; [lia|].
   cbv zeta. rewrite fixed_unscaled by lia. reflexivity.
 Qed.
 
-Lemma prepare_fixed_errs repaired precision scale size sign ds exp :
-  (precision < len ds -> prepare_fixed_decimal_gen repaired precision scale size sign ds exp = Err) /\
-  (exp + scale < 0 -> prepare_fixed_decimal_gen repaired precision scale size sign ds exp = Err).
+Lemma prepare_fixed_errs precision scale size sign ds exp :
+  (precision < len ds -> prepare_fixed_decimal precision scale size sign ds exp = Err) /\
+  (exp + scale < 0 -> prepare_fixed_decimal precision scale size sign ds exp = Err).
 Proof.
-  split; intros H; unfold prepare_fixed_decimal_gen.
+  split; intros H; unfold prepare_fixed_decimal.
   - destruct (len ds >? precision) eqn:E1; [reflexivity|lia].
   - destruct (len ds >? precision) eqn:E1; [reflexivity|].
     destruct (- exp >? scale) eqn:E2; [reflexivity|lia].
@@ -634,19 +632,19 @@ Proof.
   apply from_be_signed_fixed; [lia|left; exact Hf].
 Qed.
 
-(** **** the repaired function: full statement *)
-Theorem decimal_fixed_repaired precision scale size sign ds exp :
+(** **** prepare_fixed_decimal + write_fixed: full statement *)
+Theorem decimal_fixed_ok precision scale size sign ds exp :
   Forall is_digit ds -> 0 <= size ->
   let su := signed sign (unscaled scale ds exp) in
   (len ds <= precision -> 0 <= exp + scale -> fits size su ->
-     exists bs, write_fixed_decimal_fixed precision scale size sign ds exp = Ok bs /\ fixed_encoding size su bs) /\
+     exists bs, write_fixed_decimal precision scale size sign ds exp = Ok bs /\ fixed_encoding size su bs) /\
   (len ds <= precision -> 0 <= exp + scale -> ~ fits size su ->
-     write_fixed_decimal_fixed precision scale size sign ds exp = Err) /\
-  (precision < len ds -> write_fixed_decimal_fixed precision scale size sign ds exp = Err) /\
-  (exp + scale < 0 -> write_fixed_decimal_fixed precision scale size sign ds exp = Err).
+     write_fixed_decimal precision scale size sign ds exp = Err) /\
+  (precision < len ds -> write_fixed_decimal precision scale size sign ds exp = Err) /\
+  (exp + scale < 0 -> write_fixed_decimal precision scale size sign ds exp = Err).
 Proof.
   intros Hd Hsz su. pose proof (unscaled_nonneg scale ds exp Hd) as Hu.
-  unfold write_fixed_decimal_fixed, write_fixed_decimal_gen.
+  unfold write_fixed_decimal.
   split; [|split; [|split]].
   - intros Hp Hs Hf. rewrite prepare_fixed_unfold by assumption. cbv zeta.
     set (u := unscaled scale ds exp) in *.
@@ -668,11 +666,11 @@ Proof.
     assert (Hge : ~ u < 2 ^ (8 * size - 1)) by (unfold fits, su, signed in Hf; destruct sign; lia).
     rewrite <- (bits_req_fits size u Hu) in Hge.
     destruct (bit_length u + 1 >? size * 8) eqn:E; [reflexivity|lia].
-  - intros H. rewrite (proj1 (prepare_fixed_errs true precision scale size sign ds exp) H). reflexivity.
-  - intros H. rewrite (proj2 (prepare_fixed_errs true precision scale size sign ds exp) H). reflexivity.
+  - intros H. rewrite (proj1 (prepare_fixed_errs precision scale size sign ds exp) H). reflexivity.
+  - intros H. rewrite (proj2 (prepare_fixed_errs precision scale size sign ds exp) H). reflexivity.
 Qed.
 
-(** the one representable value the repaired function refuses, -2^(8 size - 1), cannot arise from a
+(** the one representable value the function refuses, -2^(8 size - 1), cannot arise from a
     schema that passed parse_schema (precision <= floor(log10 2 * (8 size - 1)), i.e. 10^precision <= 2^(8 size - 1)) *)
 Lemma pow2_mod5 n : 0 <= n -> 2 ^ n mod 5 <> 0.
 Proof.
@@ -695,68 +693,6 @@ Proof.
     change (10 ^ 1) with (2 * 5).
     replace (digits_val ds * (2 * 5 * 10 ^ (exp + scale - 1))) with ((digits_val ds * 2 * 10 ^ (exp + scale - 1)) * 5) by lia.
     apply Z.mod_mul. lia.
-Qed.
-
-(** **** the code as it is: what does hold *)
-Theorem decimal_fixed_current precision scale size sign ds exp :
-  Forall is_digit ds -> 0 <= size ->
-  let u := unscaled scale ds exp in
-  let su := signed sign u in
-  (len ds <= precision -> 0 <= exp + scale -> fits size su -> (sign = false \/ u <> 0) ->
-     exists bs, write_fixed_decimal precision scale size sign ds exp = Ok bs /\ fixed_encoding size su bs) /\
-  (len ds <= precision -> 0 <= exp + scale -> ~ fits size su -> sign = false ->
-     write_fixed_decimal precision scale size sign ds exp = Err) /\
-  (precision < len ds -> write_fixed_decimal precision scale size sign ds exp = Err) /\
-  (exp + scale < 0 -> write_fixed_decimal precision scale size sign ds exp = Err).
-Proof.
-  intros Hd Hsz u su. pose proof (unscaled_nonneg scale ds exp Hd) as Hu. fold u in Hu.
-  unfold write_fixed_decimal, write_fixed_decimal_gen.
-  split; [|split; [|split]].
-  - intros Hp Hs Hf Hsign. rewrite prepare_fixed_unfold by assumption. cbv zeta. fold u. cbn [bind].
-    assert (Hlt : u < 2 ^ (8 * size - 1)) by (unfold fits, su, signed in Hf; destruct sign; lia).
-    apply (bits_req_fits size u Hu) in Hlt.
-    exists (be_loop (Z.to_nat size) su).
-    assert (C : fixed_core size sign u = be_loop (Z.to_nat size) su).
-    { unfold su, signed. destruct sign.
-      - apply fixed_core_neg_fits; [destruct Hsign; [discriminate|lia]|lia].
-      - apply fixed_core_pos_fits; lia. }
-    rewrite C. pose proof (fixed_encoding_be_loop size su Hsz Hf) as F.
-    split; [apply write_fixed_ok, F|exact F].
-  - intros Hp Hs Hf ->. rewrite prepare_fixed_unfold by assumption. cbv zeta. fold u. cbn [bind].
-    assert (Hge : ~ u < 2 ^ (8 * size - 1)) by (unfold fits, su, signed in Hf; lia).
-    rewrite <- (bits_req_fits size u Hu) in Hge.
-    apply write_fixed_err. pose proof (fixed_core_pos_overflow size u Hsz Hu ltac:(lia)). lia.
-  - intros H. rewrite (proj1 (prepare_fixed_errs false precision scale size sign ds exp) H). reflexivity.
-  - intros H. rewrite (proj2 (prepare_fixed_errs false precision scale size sign ds exp) H). reflexivity.
-Qed.
-
-(** **** the code as it is: what does not hold (F2 and negative zero) *)
-Theorem decimal_fixed_refuted_overflow :
-  exists precision scale size sign ds exp bs,
-    Forall is_digit ds /\ len ds <= precision /\ 0 <= exp + scale /\
-    10 ^ precision <= 2 ^ (8 * size - 1) /\                       (* schema accepted by parse_schema *)
-    ~ fits size (signed sign (unscaled scale ds exp)) /\           (* value does not fit *)
-    write_fixed_decimal precision scale size sign ds exp = Ok bs /\ (* no error *)
-    from_be_signed bs <> signed sign (unscaled scale ds exp) /\    (* a different number is stored *)
-    read_decimal precision scale bs = Ok (12, -2).                 (* Decimal("-5") comes back as 0.12 *)
-Proof.
-  exists 2, 2, 1, true, [5], 0, [12].
-  split; [repeat constructor; unfold is_digit; lia|].
-  vm_compute. repeat split; try discriminate; intros [H1 H2]; discriminate.
-Qed.
-
-Theorem decimal_fixed_refuted_negzero :
-  exists precision scale size sign ds exp bs,
-    Forall is_digit ds /\ len ds <= precision /\ 0 <= exp + scale /\
-    10 ^ precision <= 2 ^ (8 * size - 1) /\
-    fits size (signed sign (unscaled scale ds exp)) /\             (* the value, zero, fits *)
-    write_fixed_decimal precision scale size sign ds exp = Ok bs /\
-    from_be_signed bs <> signed sign (unscaled scale ds exp) /\
-    read_decimal precision scale bs = Ok (-2, -2).                 (* Decimal("-0") comes back as -0.02 *)
-Proof.
-  exists 4, 2, 2, true, [0], 0, [255; 254].
-  split; [repeat constructor; unfold is_digit; lia|].
-  vm_compute. repeat split; try discriminate.
 Qed.
 
 (** **** never altered *)
@@ -796,14 +732,14 @@ Proof.
   apply read_back; assumption.
 Qed.
 
-Theorem fixed_never_altered_repaired precision scale size sign ds exp bs :
+Theorem fixed_never_altered precision scale size sign ds exp bs :
   Forall is_digit ds -> 1 <= precision -> 0 <= size ->
-  write_fixed_decimal_fixed precision scale size sign ds exp = Ok bs ->
+  write_fixed_decimal precision scale size sign ds exp = Ok bs ->
   len ds <= precision /\ 0 <= exp + scale /\ fits size (signed sign (unscaled scale ds exp)) /\ len bs = size /\
   exists d, read_decimal precision scale bs = Ok d /\ dec_eq d (dec_of_tuple sign ds exp).
 Proof.
   intros Hd Hp Hsz W.
-  destruct (decimal_fixed_repaired precision scale size sign ds exp Hd Hsz) as (A & B & C & D).
+  destruct (decimal_fixed_ok precision scale size sign ds exp Hd Hsz) as (A & B & C & D).
   destruct (Z_lt_le_dec precision (len ds)) as [L|L]; [rewrite (C L) in W; discriminate|].
   destruct (Z_lt_le_dec (exp + scale) 0) as [L2|L2]; [rewrite (D L2) in W; discriminate|].
   assert (F : fits size (signed sign (unscaled scale ds exp))).
@@ -813,30 +749,6 @@ Proof.
     - rewrite (B L L2) in W; [discriminate|unfold fits; lia].
     - rewrite (B L L2) in W; [discriminate|unfold fits; lia]. }
   destruct (A L L2 F) as (bs' & W' & E1 & E2 & E3 & E4). rewrite W' in W. injection W as <-.
-  split; [exact L|]. split; [exact L2|]. split; [exact F|]. split; [exact E2|].
-  apply read_back; assumption.
-Qed.
-
-Theorem fixed_never_altered_current precision scale size sign ds exp bs :
-  Forall is_digit ds -> 1 <= precision -> 0 <= size ->
-  (sign = false \/ (unscaled scale ds exp <> 0 /\ fits size (signed sign (unscaled scale ds exp)))) ->
-  write_fixed_decimal precision scale size sign ds exp = Ok bs ->
-  len ds <= precision /\ 0 <= exp + scale /\ fits size (signed sign (unscaled scale ds exp)) /\ len bs = size /\
-  exists d, read_decimal precision scale bs = Ok d /\ dec_eq d (dec_of_tuple sign ds exp).
-Proof.
-  intros Hd Hp Hsz Hc W.
-  destruct (decimal_fixed_current precision scale size sign ds exp Hd Hsz) as (A & B & C & D).
-  destruct (Z_lt_le_dec precision (len ds)) as [L|L]; [rewrite (C L) in W; discriminate|].
-  destruct (Z_lt_le_dec (exp + scale) 0) as [L2|L2]; [rewrite (D L2) in W; discriminate|].
-  assert (F : fits size (signed sign (unscaled scale ds exp))).
-  { destruct Hc as [->|[_ F]]; [|exact F].
-    destruct (Z_lt_le_dec (- 2 ^ (8 * size - 1)) (signed false (unscaled scale ds exp))) as [F1|F1];
-    [destruct (Z_lt_le_dec (signed false (unscaled scale ds exp)) (2 ^ (8 * size - 1))) as [F2|F2]|].
-    - unfold fits; lia.
-    - rewrite (B L L2) in W; [discriminate|unfold fits; lia|reflexivity].
-    - rewrite (B L L2) in W; [discriminate|unfold fits; lia|reflexivity]. }
-  assert (Hs' : sign = false \/ unscaled scale ds exp <> 0) by (destruct Hc as [?|[? _]]; auto).
-  destruct (A L L2 F Hs') as (bs' & W' & E1 & E2 & E3 & E4). rewrite W' in W. injection W as <-.
   split; [exact L|]. split; [exact L2|]. split; [exact F|]. split; [exact E2|].
   apply read_back; assumption.
 Qed.
